@@ -362,7 +362,7 @@ impl<Aux> Vm<'_, Aux> {
         while *instr_ptr < len {
             // the budget of the run is shared with the script functions that native functions
             // call back into (run_function re-enters this loop)
-            self.remaining_iters -= 1;
+            self.remaining_iters = self.remaining_iters.saturating_sub(1);
             if self.remaining_iters == 0 {
                 return Err(payload_to_error(
                     ExecutionErrorPayload::Timeout,
